@@ -161,8 +161,26 @@ def check(pm: ProgramModel, ctx: Ctx) -> None:
              "excludes": [n_(o_("EXCLUDES"), n_("A1"), n_("D"))], "literal": [n_("B")],
              "tautology": [n_(o_("OR"), n_("B"), n_(o_("NOT"), n_("B")))],
              "several": [n_(o_("IMPLIES"), n_("C"), n_("A2")), n_(o_("NOT"), n_(o_("AND"), n_("D"), n_("E")))]}
-    for cname, ctcs in cases.items():
-        fm = small(ctcs)
+    def decorated(ctcs: list[Any]) -> AObj:
+        """Abstract flags, feature cardinalities and attributes in every position - on optional leaves, on optional features
+        whose own children are all optional, on group members and on mandatory children: none of them changes the count."""
+        F = mb.feature
+        r = F("R", is_abstract=True)
+        a, b, c, d = F("A", is_abstract=True), F("B", is_abstract=True), F("C"), F("D", is_abstract=True, card=(0, 3))
+        mb.relation(r, [a], 0, 1)                          # abstract optional leaf
+        mb.relation(r, [b], 0, 1)                          # abstract optional feature, nothing forced below it
+        mb.relation(b, [F("B1", is_abstract=True)], 0, 1)
+        mb.relation(b, [F("B2"), F("B3", is_abstract=True)], 0, 1)
+        mb.relation(r, [c], 0, 1)                          # concrete optional feature over an abstract mandatory child
+        mb.relation(c, [F("C1", is_abstract=True, card=(0, 2))], 1, 1)
+        mb.relation(r, [d], 1, 1)                          # abstract mandatory [0..3] feature with an or-group of abstract members
+        mb.relation(d, [F("D1", is_abstract=True), F("D2")], 1, 2)
+        for f_ in (a, b, d):
+            f_._f["attributes"].append(mb.attribute("cost", 1, f_))
+        return mb.model(r, [mb.constraint(f"k{i}", t) for i, t in enumerate(ctcs)])
+    work = [(cname, small(ctcs)) for cname, ctcs in cases.items()] + \
+        [("decorated", decorated([])), ("decorated+requires", decorated([n_(o_("REQUIRES"), n_("A"), n_("B1"))]))]
+    for cname, fm in work:
         it = Interp(pm)
         try:
             est = it.call(top, [fm])
